@@ -699,6 +699,60 @@ func runC09(c *Ctx) {
 		}
 	})
 
+	// ---- issuers whose public coordinates have leading zero bytes, one after the other in one process (1, then 2, then 3
+	// leading zero bytes; x, then y): the identity hash ZA pads coordinates to 32 bytes, and whatever that padding shares
+	// between calls shows when a shorter value follows a longer one. Each certificate is checked by the library and by the
+	// reference verifier over the raw TBS, and the earlier ones are checked again after the later issuers were used.
+	{
+		rk := c.Rng("issuer-key-classes")
+		type issued struct {
+			ca, leaf *gx509.Certificate
+			key      testKey
+		}
+		var made []issued
+		check := func(x issued, when string) {
+			w := map[string]interface{}{"issuer_key_class": x.key.cls, "issuer_d": x.key.d.Text(16), "when": when}
+			if e := x.leaf.CheckSignatureFrom(x.ca); e != nil {
+				rep.Violation("C09/CreateCertificate/does-not-verify-under-issuer/sm2/issuer-key-class", fmt.Sprintf("%s (%s): %v", x.key.cls, when, e), w)
+			}
+			tbs, sig, _ := tbsAndSig(x.leaf.Raw)
+			var v struct{ R, S *big.Int }
+			asn1.Unmarshal(sig, &v)
+			if v.R == nil || !ref.Verify(x.key.x, x.key.y, ref.DefaultUID, tbs, v.R, v.S) {
+				rep.Violation("C09/CreateCertificate/sm2-signature-not-over-raw-TBS-with-default-ID/issuer-key-class", fmt.Sprintf("%s (%s): reference verifier rejects", x.key.cls, when), w)
+			}
+		}
+		for _, k := range keyClasses(rk, 2, true) {
+			ct := &gx509.Certificate{SerialNumber: big.NewInt(1), Subject: pkix.Name{CommonName: "issuer " + k.cls}, NotBefore: fixedNow.Add(-time.Hour), NotAfter: fixedNow.Add(time.Hour),
+				BasicConstraintsValid: true, IsCA: true, KeyUsage: gx509.KeyUsageCertSign, SignatureAlgorithm: gx509.SM2WithSM3}
+			cder, e1 := gx509.CreateCertificate(ct, ct, k.pub(), k.priv())
+			lt := &gx509.Certificate{SerialNumber: big.NewInt(2), Subject: pkix.Name{CommonName: "leaf under " + k.cls}, NotBefore: fixedNow.Add(-time.Hour), NotAfter: fixedNow.Add(time.Hour), SignatureAlgorithm: gx509.SM2WithSM3}
+			if e1 != nil {
+				continue
+			}
+			ca, e2 := gx509.ParseCertificate(cder)
+			if e2 != nil {
+				continue
+			}
+			lder, e3 := gx509.CreateCertificate(lt, ca, &subjPub.PublicKey, k.priv())
+			if e3 != nil {
+				rep.Violation("C09/CreateCertificate/error/sm2/issuer-key-class", e3.Error(), map[string]interface{}{"issuer_key_class": k.cls})
+				continue
+			}
+			leaf, e4 := gx509.ParseCertificate(lder)
+			if e4 != nil {
+				continue
+			}
+			x := issued{ca, leaf, k}
+			check(x, "right after issuing")
+			made = append(made, x)
+			rep.Eval("issuer-key-class/" + k.cls)
+		}
+		for _, x := range made {
+			check(x, "after all other issuers were used")
+		}
+	}
+
 	// ---- hand-built issuer structs and struct reuse: the parent is a struct the caller filled in (no RawSubject), used
 	// for several certificates with its Subject edited in place in between; and the self-signed loop where template and
 	// parent are one struct. Each certificate must carry the names its template and parent held AT THE TIME of its call.
